@@ -84,7 +84,9 @@ Proof. vm_compute. split; reflexivity. Qed.
 (* the first pass as a whole (src/cleditor/STEPfile.cc ReadData1 / CreateInstance, coq/P21Pass1.v): every well-formed simple
    instance of a data section - in any layout: separators (white space, comments) before the number sign, between it and the
    digits, around the equals sign, a record made of strings, comments and other characters - whose keyword the registry
-   can instantiate is created, in file order, under its own name and keyword, and the pass ends at ENDSEC *)
+   can instantiate is created, in file order, under its own name and keyword, and the pass ends at ENDSEC.  Names are
+   digits with a value from 1 to INT_MAX: the instance manager takes #0 for "no name yet" and stores the instance under the
+   next free name (mgr_append), so a later instance of that name would be refused as a duplicate *)
 Theorem c01_first_pass_creates_every_instance : forall creatable legal is st ws x,
   is <> [] ->
   P21Pass1.insts_ok is (P21Sep.seps_text st ++ [69; 78; 68; 83; 69; 67]%N ++ ws ++ P21Sep.SEMI :: x) = true ->
